@@ -125,15 +125,15 @@ func (s *store) Transaction(options keyvalue.TransactionOptions) (keyvalue.Trans
 }
 
 func (t *transaction) prepOp() (keyvalue.OpID, error) {
+	op := t.op
+	t.op++ // every call gets its own ID, even after the transaction was aborted
+
 	select {
 	case <-t.ctx.Done():
-		return 0, t.ctx.Err()
+		return op, t.ctx.Err()
 	default:
+		return op, nil
 	}
-
-	op := t.op
-	t.op++
-	return op, nil
 }
 
 func (t *transaction) Get(path string) keyvalue.OpID {
